@@ -66,6 +66,9 @@ pub fn arch(job_path: &str, out_path: &str, dir: &str) -> Result<(), String> {
         let mut o = job.as_object().cloned().unwrap_or_default();
         let id = job["id"].as_str().unwrap_or("x");
         let r = catch_unwind(AssertUnwindSafe(|| -> Result<Map<String, Value>, String> {
+            if job["big"].as_bool().unwrap_or(false) {
+                return arch_big(job, dir);
+            }
             let mut m = Map::new();
             let bn = load_network(job["model"].as_str().unwrap_or(""), job["format"].as_str().unwrap_or("aeon"))?;
             let k = job["k"].as_u64().unwrap_or(0) as u16;
@@ -117,6 +120,62 @@ pub fn arch(job_path: &str, out_path: &str, dir: &str) -> Result<(), String> {
         out.push(Value::Object(o));
     }
     std::fs::write(out_path, serde_json::to_string(&json!({"events": out})).unwrap()).map_err(|e| e.to_string())
+}
+
+/// One archive round trip on a network too large for explicit sets: only BDD-level facts are logged
+/// (reloaded set == written set, sizes), to be checked against the specification by Trace_Arch.
+pub fn arch_big(job: &Value, dir: &str) -> Result<Map<String, Value>, String> {
+    use biodivine_hctl_model_checker::model_checking::model_check_tree_dirty;
+    use biodivine_hctl_model_checker::preprocessing::hctl_tree::HctlTreeNode;
+    let n = job["ring"].as_u64().unwrap_or(24) as usize;
+    let mut model = String::new();
+    for i in 0..n {
+        let j = (i + 1) % n;
+        model.push_str(&format!("v{i} -> v{j}\n$v{j}: v{i}\n"));
+    }
+    // break the symmetry: one inhibition
+    let model = model.replacen("v0 -> v1\n$v1: v0", "v0 -| v1\n$v1: !v0", 1);
+    let bn = BooleanNetwork::try_from(model.as_str())?;
+    let k = job["k"].as_u64().unwrap_or(1) as u16;
+    let g = get_extended_symbolic_graph(&bn, k)?;
+    let props: Vec<String> = bn.variables().map(|v| bn.get_variable_name(v).clone()).collect();
+    let mut sets: LabelToSetMap = HashMap::new();
+    let mut nodes = Map::new();
+    for (label, spec) in job["sets"].as_object().ok_or("no sets")? {
+        let tree = HctlTreeNode::new_random_boolean(spec["height"].as_u64().unwrap_or(9) as u8, &props, spec["seed"].as_u64().unwrap_or(0));
+        let s = model_check_tree_dirty(tree, &g)?;
+        nodes.insert(label.clone(), json!(s.as_bdd().size()));
+        sets.insert(label.clone(), s);
+    }
+    let id = job["id"].as_str().unwrap_or("big");
+    let path = format!("{dir}/{id}.zip");
+    let formulae: Vec<String> = job["formulae"].as_array().map(|a| a.iter().map(|x| x.as_str().unwrap_or("").to_string()).collect()).unwrap_or_default();
+    build_result_archive(sets.clone(), &path, bn.to_string().as_str(), formulae).map_err(|e| e.to_string())?;
+    let (names, texts) = zip_entries(&path)?;
+    let bn2 = BooleanNetwork::try_from(texts.get("model.aeon").ok_or("no model.aeon")?.as_str())?;
+    let g2 = get_extended_symbolic_graph(&bn2, k)?;
+    let loaded = load_bdd_bundle(&path, g2.symbolic_context())?;
+    let mut equal = Map::new();
+    for (label, s) in sets.iter() {
+        equal.insert(label.clone(), json!(loaded.get(label).map(|l| l.as_bdd() == s.as_bdd()).unwrap_or(false)));
+    }
+    let mut m = Map::new();
+    let mut names_sorted = names.clone();
+    names_sorted.sort();
+    m.insert("entries".into(), json!(names_sorted));
+    m.insert("labels".into(), json!(sets.keys().cloned().collect::<Vec<_>>()));
+    m.insert("loaded_labels".into(), json!(loaded.keys().cloned().collect::<Vec<_>>()));
+    m.insert("big_equal".into(), Value::Object(equal));
+    m.insert("bdd_nodes".into(), Value::Object(nodes));
+    m.insert("archive_bytes".into(), json!(std::fs::metadata(&path).map(|x| x.len()).unwrap_or(0)));
+    m.insert("back_formulae".into(), json!(texts.get("formulae.txt").map(|s| s.lines().map(|l| l.to_string()).collect::<Vec<_>>()).unwrap_or_default()));
+    if let Some(probe) = job["probe"].as_str() {
+        let a = model_check_extended_formula_dirty(probe, &g, &sets)?;
+        let b = model_check_extended_formula_dirty(probe, &g2, &loaded)?;
+        m.insert("probe_equal".into(), json!(a.as_bdd() == b.as_bdd()));
+    }
+    let _ = std::fs::remove_file(&path);
+    Ok(m)
 }
 
 /// convert <aeon file> : print {"bnet": text|null, "sbml": text} of the same network
